@@ -1,4 +1,4 @@
-CONSTANTS N = 2  Calls <- C1  Kinds <- KRR  Steps <- S30  MaxSend = 4  Reconn <- RBoth  Overlap = FALSE  KeepAlive = FALSE  PingNeutral = FALSE  Faults = TRUE
+CONSTANTS N = 2  Calls <- C1  Kinds <- KRR  Steps <- S30  MaxSend = 4  Reconn <- RBoth  Overlap = FALSE  KeepAlive = FALSE  PingNeutral = FALSE  Faults = TRUE  Reg0 <- AllEps  Answers <- NoAnswers  Stale = FALSE
 SPECIFICATION Spec
 CONSTRAINT SendBound
 INVARIANTS TypeOK RotationIsHealthy ProbeQueueSingle ProbesTargetBlocked FailuresCounted CallsGoSomewhere
